@@ -233,6 +233,36 @@ def fml_tok(f, A):
     raise ValueError(f)
 
 
+def raw_tok(f, A):
+    """operator applications as written (no abbreviation expanded): the model builds the formula objects through the regenerated
+    create_formula table (driver command thy)"""
+    t = f[0]
+    if t == 'atom':
+        return 'a %d' % A.id(f[1])
+    if t in ('true', 'false', 'initial', 'final'):
+        return 'kw ' + t
+    if t == 'not':
+        return 'o1 ~ ' + raw_tok(f[1], A)
+    B = {'and': '&', 'or': '|', 'impr': '->', 'impl': '<-', 'eqv': '<>', 'seqnext': ';>', 'seqwnext': ';>:', 'seqprev': '<;', 'seqwprev': '<:;'}
+    if t in B:
+        return 'o2 %s %s %s' % (B[t], raw_tok(f[1], A), raw_tok(f[2], A))
+    N = {'prev': '<', 'wprev': '<:', 'next': '>', 'wnext': '>:'}
+    if t in N:
+        if f[1] is None:
+            return 'o1 %s %s' % (N[t], raw_tok(f[2], A))
+        return 'on %s %d %s' % (N[t], num_val(f[1]), raw_tok(f[2], A))
+    T = {'since': '<?', 'trigger': '<*', 'until': '>?', 'release': '>*'}
+    if t in T:
+        if f[1] is None:
+            return 'o1 %s %s' % (T[t], raw_tok(f[2], A))
+        return 'o2 %s %s %s' % (T[t], raw_tok(f[1], A), raw_tok(f[2], A))
+    if t == 'initially':
+        return 'o1 << ' + raw_tok(f[1], A)
+    if t == 'finally':
+        return 'o1 >> ' + raw_tok(f[1], A)
+    raise ValueError(f)
+
+
 def path_tok(p, A):
     t = p[0]
     if t == 'skip':
